@@ -102,6 +102,7 @@ class SimStreamTransport(asyncio.Transport):
                 self._protocol.resume_writing()
 
     def close(self) -> None:
+        self.close_calls = getattr(self, "close_calls", 0) + 1
         if self._closing:
             return
         self._closing = True
